@@ -148,6 +148,8 @@ def callee_name(t):
         return "." + f.args[1]
     if f.op == "global":
         return "%s.%s" % (f.args[0], f.args[1])
+    if f.op in ("func", "class"):
+        return f.args[0]
     return None
 
 
